@@ -178,6 +178,62 @@ def discharge_all(obligs, outdir, timeout=20, jobs=16, all_solvers=False, order=
     cvc5 on the query raced with z3 5.1 / cvc5 on its purified weakening; then z3 4.8.12.
     thorough (all_solvers): every solver answers every obligation and they must agree."""
     os.makedirs(outdir, exist_ok=True)
+    # obligations raised at the END of one path share its final path condition (hypotheses differ only by definitional facts):
+    # they are first tried as ONE query (all hypotheses, conjunction of the goals); `unsat` discharges every member, any
+    # other answer sends the members through the normal pipeline one by one
+    merged_done = {}
+    if not all_solvers and order is None:
+        groups = {}
+        for i, o in enumerate(obligs):
+            g = o.meta.get("group") if isinstance(getattr(o, "meta", None), dict) else None
+            if g is not None:
+                groups.setdefault(g, []).append(i)
+        big = [idx for idx in groups.values() if len(idx) > 1]
+
+        jobs_g = []
+        for idx in big:                       # z3's API is not thread-safe: the texts are built here, only solvers run in threads
+            hyps, seen = [], set()
+            for i in idx:
+                for h in obligs[i].hyps:
+                    k = h.get_id() if hasattr(h, "get_id") else id(h)
+                    if k not in seen:
+                        seen.add(k)
+                        hyps.append(h)
+            goal = z3.And([obligs[i].goal if not isinstance(obligs[i].goal, bool) else z3.BoolVal(obligs[i].goal) for i in idx])
+            s_ = to_smt2(hyps, goal)
+            path = os.path.join(outdir, "%s.group.smt2" % hashlib.sha1(s_.encode()).hexdigest()[:16])
+            with open(path, "w") as f:
+                f.write(s_)
+            jobs_g.append((idx, path))
+
+        def try_group(job):
+            idx, path = job
+            ans, dt = run_solver("z3-5.1", path, 3)
+            try:
+                os.unlink(path)
+            except OSError:
+                pass
+            return idx, ans, dt
+        with ThreadPoolExecutor(max_workers=jobs) as ex:
+            for idx, ans, dt in ex.map(try_group, jobs_g):
+                if ans == "unsat":
+                    for i in idx:
+                        merged_done[i] = {"verdict": "unsat", "by": "z3-5.1", "times": {"z3-5.1": ("unsat", round(dt / len(idx), 3))},
+                                          "file": None, "merged_with": len(idx)}
+    if merged_done:
+        rest_idx = [i for i in range(len(obligs)) if i not in merged_done]
+        rest = _discharge_plain([obligs[i] for i in rest_idx], outdir, timeout, jobs)
+        out = [None] * len(obligs)
+        for i, r in merged_done.items():
+            out[i] = r
+        for i, r in zip(rest_idx, rest):
+            out[i] = r
+        return out
+    return _discharge_plain(obligs, outdir, timeout, jobs, all_solvers=all_solvers, order=order)
+
+
+def _discharge_plain(obligs, outdir, timeout=20, jobs=16, all_solvers=False, order=None):
+    os.makedirs(outdir, exist_ok=True)
     smts = [to_smt2(o.hyps, o.goal) for o in obligs]
     uniq = {}
     for s in smts:
